@@ -138,10 +138,20 @@ func cmdC07(args []string) {
 	dir := fs.String("dir", ".", "output directory")
 	nh := fs.Int("n", 6, "base histories")
 	maxPts := fs.Int("points", 120, "max injection points per base history (0 = all)")
+	prof := fs.String("profile", "C07", "C07 | C18 (iterators and visits on cold trees)")
 	fs.Parse(args)
 	r := rand.New(rand.NewSource(*seed))
 	p := Profile{Name: "C07", Ops: 36, Set: 30, Del: 10, Get: 8, GetI: 5, Min: 3, Max: 3, Totals: 3, Visit: 6,
-		Flush: 10, Evict: 8, Reopen: 6, Revert: 2, Copy: 2, Snap: 2, SnapClose: 1, Len: 1, MaxColls: 2, Drop: 20, BigVals: false}
+		Flush: 10, Evict: 8, Reopen: 6, Revert: 2, Copy: 2, Snap: 2, SnapClose: 1, Len: 1, MaxColls: 2, Drop: 20, BigVals: false,
+		Iter: 2, SnapRevert: 1, CloseSnapsOnReopen: true}
+	if *prof == "C11" {
+		p.Name = "C07-C11"
+		p.Copy, p.Set, p.Get, p.GetI, p.Revert, p.Iter, p.MaxColls = 12, 40, 2, 2, 1, 0, 3
+	}
+	if *prof == "C18" {
+		p.Name = "C07-C18"
+		p.Iter, p.Visit, p.Evict, p.Reopen, p.Set, p.Get, p.GetI, p.Copy = 14, 10, 10, 8, 24, 2, 2, 0
+	}
 	if *tier == "thorough" {
 		p.Ops = 50
 	}
@@ -232,8 +242,18 @@ func cmdC07(args []string) {
 			var must, rest []injPoint
 			for _, pt := range pts {
 				switch opKind(base[pt.op]) {
-				case "set", "del", "setroot":
+				case "set", "del", "setroot", "copy":
 					must = append(must, pt)
+				case "iter", "visit":
+					if *prof == "C11" {
+		p.Name = "C07-C11"
+		p.Copy, p.Set, p.Get, p.GetI, p.Revert, p.Iter, p.MaxColls = 12, 40, 2, 2, 1, 0, 3
+	}
+	if *prof == "C18" {
+						must = append(must, pt)
+					} else {
+						rest = append(rest, pt)
+					}
 				default:
 					rest = append(rest, pt)
 				}
@@ -282,8 +302,18 @@ func cmdC07(args []string) {
 						rl := "rmfile " + f[3] // whatever a failed CopyTo left in its destination is discarded
 						emit(rl, w.Exec(rl))
 					case "flush":
-						if r.Intn(2) == 0 {
+						switch r.Intn(4) {
+						case 0, 1:
 							emit(l, w.Exec(l)) // retried Flush
+						case 2:
+							// FlushRevert straight after the failed Flush: back to the flush before
+							// the last completed one, whatever the failed one left in the file
+							rl := "revert " + f[1]
+							emit(rl, w.Exec(rl))
+							nl := "names " + f[1]
+							emit(nl, w.Exec(nl))
+							dl := "dump " + f[1]
+							emit(dl, w.Exec(dl))
 						}
 					}
 				} else {
@@ -304,6 +334,8 @@ func cmdC07(args []string) {
 			sort.Ints(fids)
 			for _, id := range fids {
 				l := fmt.Sprintf("opendump %d", id)
+				emit(l, w.Exec(l))
+				l = fmt.Sprintf("appendcheck %d", id)
 				emit(l, w.Exec(l))
 			}
 			emit("heapcheck", w.Exec("heapcheck"))
